@@ -10,7 +10,7 @@ from vlib import files, gen, oracle
 ID = "C09"
 RULE = ("case = (protein fragment with hydrogens quantised to 2^-10 nm, 1-2 frames) x transformation: non-periodic {one of the 24 exact cube "
         "rotations + dyadic translation up to 512 nm (exact in float32) | random SO(3) rotation + arbitrary translation up to 500 nm}; "
-        "periodic {per-atom integer lattice shifts of +-3 cells and/or a whole-system translation, orthorhombic cells with dyadic lengths "
+        "(each frame moved by a rigid motion of its own); periodic {per-atom integer lattice shifts of +-3 cells and/or a whole-system translation, orthorhombic cells with dyadic lengths "
         "(exact) or triclinic cells (re-rounded)}; observables: distances, angles, dihedrals (magnitude and sign), RMSD to a co-moved "
         "reference, Rg, gyration-tensor eigenvalues, DRID, SASA, contacts (all five schemes), Baker-Hubbard / Wernet-Nilsson / Kabsch-Sander hydrogen bonds, "
         "DSSP, neighbour sets; oracle: before == after (discrete observables identical under exact transforms, continuous within L*delta + "
@@ -99,6 +99,9 @@ def run_case(case):
                 tr = np.array([1.0, -2.0, 0.5]) * (2.0 ** case["tpow"])     # dyadic, |t| up to 1024 nm -> cap below
                 tr = np.clip(tr, -512, 512)
                 y = x @ R.T + tr
+                for f_ in range(1, case["nf"]):
+                    # every further frame gets a rigid motion of its own (another cube rotation, another dyadic translation)
+                    y[f_] = x[f_] @ CUBE[(case["rot"] + 7 * f_) % 24].T + tr * (0.5 if f_ % 2 else -0.25)
                 exact = True
                 nontrivial = case["rot"] != 0 or case["tpow"] >= 6
             else:
@@ -106,6 +109,9 @@ def run_case(case):
                 u = rng.normal(size=3)
                 tr = case["tmag"] * u / np.linalg.norm(u)
                 y = x @ R.T + tr
+                for f_ in range(1, case["nf"]):
+                    uf = rng.normal(size=3)
+                    y[f_] = x[f_] @ oracle.random_rotation(rng).T + case["tmag"] * uf / np.linalg.norm(uf)
                 exact = False
                 nontrivial = True
             ta = md.Trajectory(x.astype(np.float32), t0.topology)
@@ -173,7 +179,7 @@ def run_case(case):
             if (np.abs(ra - rb) > rt).any():
                 viol.append(("rmsd/changed", "RMSD to the co-moved reference changed by %.3g" % float(np.abs(ra - rb).max())))
             sa, sb = oa["sasa"].astype(np.float64), ob["sasa"].astype(np.float64)
-            if exact and case["rot"] == 0:
+            if exact and case["rot"] == 0 and case["nf"] == 1:      # (further frames are rotated as well)
                 unit = 1.0 / 100
                 radii2 = None
                 rel = np.abs(sa - sb).sum() / max(sa.sum(), 1e-9)
